@@ -12,6 +12,7 @@ import (
 	"testing"
 	"testing/synctest"
 	"time"
+	"unicode/utf8"
 
 	"github.com/golang/snappy"
 
@@ -794,6 +795,88 @@ func truncations(t *testing.T, run *vt.Run, c vt.CaseID, rng *rand.Rand) {
 	})
 }
 
+// hostileKeys: well-formed frames whose key is hostile (bytes that are not valid UTF-8 - malformed for a protobuf string
+// field -, NUL and control bytes, a very long key, a key nobody uses) carrying a real, decodable value, through the full
+// state path (synchronous: a panic is caught here) and through NotifyMsg (asynchronous: a panic kills the process and is
+// attributed to this case by the crash journal). The node must survive, and what it shows for the keys in use must
+// not change. Whether such a pair is stored under its odd key is the implementation's business.
+func hostileKeys(t *testing.T, run *vt.Run, c vt.CaseID, rng *rand.Rand) {
+	synctest.Test(t, func(t *testing.T) {
+		net, err := simnet.New(2, simnet.DefaultConfig(time.Hour))
+		if err != nil {
+			run.Inconclusive(err.Error())
+			return
+		}
+		defer net.Stop()
+		s := &sim{net: net, rng: rng, n: 2, group: make([]int, 2), stats: map[string]int{}, onceWritten: map[int]bool{}}
+		for k := 1 + rng.IntN(3); k > 0; k-- {
+			s.casRing(0)
+			s.casPart(0)
+			time.Sleep(time.Second)
+			synctest.Wait()
+		}
+		net.Nodes[1].KV.MergeRemoteState(net.Nodes[0].KV.LocalState(false), false)
+		synctest.Wait()
+		var pairs []memberlist.KeyValuePair
+		full := net.Nodes[0].KV.LocalState(false)
+		for len(full) > 4 {
+			l := int(binary.BigEndian.Uint32(full))
+			var p memberlist.KeyValuePair
+			if 4+l > len(full) || p.Unmarshal(full[4:4+l]) != nil {
+				break
+			}
+			pairs = append(pairs, p)
+			full = full[4+l:]
+		}
+		if len(pairs) == 0 {
+			run.Inconclusive("no pairs in the sender's full state")
+			return
+		}
+		keys := []string{"ri\xffng", "\xc3\x28", "\xed\xa0\x80", "ring\x00", "\x00", "a\nb", strings.Repeat("k", 70000), "nobody-uses-this-key", simnet.RingKey + "\xfe"}
+		key := keys[int(c.Idx)%len(keys)]
+		p := pairs[rng.IntN(len(pairs))]
+		p.Key = key
+		bad, _ := p.Marshal()
+		j := rng.IntN(2)
+		before := map[string]string{simnet.RingKey: net.Visible(j, simnet.RingKey), simnet.PartKey: net.Visible(j, simnet.PartKey)}
+		viaFull := (int(c.Idx)/len(keys))%2 == 0
+		det := map[string]any{"key": fmt.Sprintf("%q", key[:min(len(key), 40)]), "key_length": len(key), "valid_utf8": utf8.ValidString(key), "through_full_state": viaFull, "node": j}
+		var pn any
+		func() {
+			defer func() { pn = recover() }()
+			if viaFull {
+				buf := make([]byte, 4)
+				binary.BigEndian.PutUint32(buf, uint32(len(bad)))
+				net.Nodes[j].KV.MergeRemoteState(append(buf, bad...), false)
+			} else {
+				net.Nodes[j].KV.NotifyMsg(bad)
+			}
+		}()
+		synctest.Wait()
+		time.Sleep(2 * time.Second)
+		synctest.Wait()
+		run.EvalH(vt.Mix(uint64(int(c.Idx)%(2*len(keys))), 5, 5), true)
+		run.Count("hostile_keys_injected", 1)
+		if pn != nil {
+			sig := "malformed/panic/hostile-key"
+			if !utf8.ValidString(key) {
+				sig = "malformed/panic/key-not-utf8"
+			}
+			run.Violation(c, sig, fmt.Sprintf("a well-formed frame with a hostile key crashed the node: %v", pn), det)
+			return
+		}
+		for k, b := range before {
+			if a := net.Visible(j, k); a != b {
+				det["before"], det["after"] = b, a
+				run.Violation(c, "malformed/hostile-key-changed-another-key", "a frame under a hostile key changed what the node shows for "+k, det)
+			}
+		}
+		// the node still works: a later write on it is acknowledged and shown
+		s.casRing(j)
+		synctest.Wait()
+	})
+}
+
 // freshBurst: a node that does not hold the key yet receives, back to back, messages that change nothing (an empty
 // descriptor; a descriptor holding only a tombstone older than the retention) and then a real update, all through
 // NotifyMsg before the per-key worker has gone through them; after quiescence it must show the update.
@@ -952,6 +1035,11 @@ func TestC06(t *testing.T) {
 	run.ForEachT(t, "stale-tombstone", vt.N(60, 1500), func(t *testing.T, c vt.CaseID, rng *rand.Rand, s *vt.Slot) {
 		s.Enter(c, "crash/stale-tombstone")
 		staleTombstone(t, run, c, rng)
+		s.Leave()
+	})
+	run.ForEachT(t, "hostile-keys", vt.N(36, 360), func(t *testing.T, c vt.CaseID, rng *rand.Rand, s *vt.Slot) {
+		s.Enter(c, "cluster/hostile-keys")
+		hostileKeys(t, run, c, rng)
 		s.Leave()
 	})
 	run.ForEachT(t, "truncations", vt.N(40, 1500), func(t *testing.T, c vt.CaseID, rng *rand.Rand, s *vt.Slot) {
